@@ -103,8 +103,8 @@ class RealWorld(object):
     def settle(self, conn, timeout=30.0):
         """wait until the client's networking threads are gone and the
         server has seen the client close every link"""
-        deadline = time.time() + timeout
-        while time.time() < deadline:
+        deadline = time.monotonic() + timeout
+        while time.monotonic() < deadline:
             if conn.networking_thread is None and \
                     conn.new_networking_thread is None and \
                     all(l.client_closed for l in self.links):
